@@ -251,6 +251,33 @@ func errchkRule(c *Ctx, v *vocab, rule, pkg string, floor int) {
 						}
 					}
 				}
+				// the variable is an operand of a short-circuit condition that this path started to evaluate
+				// (`if err == nil && sessErr != nil`: an earlier error takes precedence, as in `sessErr != nil && err == nil`)
+				if errVar != nil && !good {
+					for _, a := range t.Ev[i+1:] {
+						{
+							ast.Inspect(fi.Decl.Body, func(n ast.Node) bool {
+								is, ok := n.(*ast.IfStmt)
+								// the path went past the condition (an operand decided by what the path already knows leaves no event)
+								if !ok || good || is.Cond.Pos() < e.Pos || a.Pos < is.Cond.Pos() || a.Pos > fi.Decl.End() {
+									return !good
+								}
+								if _, isBin := ast.Unparen(is.Cond).(*ast.BinaryExpr); isBin {
+									ast.Inspect(is.Cond, func(m ast.Node) bool {
+										if id, ok := m.(*ast.Ident); ok && h.objOf(id) == errVar {
+											good = true
+										}
+										return !good
+									})
+								}
+								return !good
+							})
+						}
+						if a.Kind == EvAssign && a.LObj == errVar && ast.Unparen(a.RHS) != ast.Expr(e.Call) {
+							break
+						}
+					}
+				}
 				if !good && s.handled {
 					s.handled, s.w = false, t
 				}
